@@ -27,27 +27,19 @@ def allDefaults : List MutableDefault := aliasTable.flatMap (·.defaults)
 the caller's object is their purpose -/
 def outParams : List String := ["solve_statistics"]
 
-/-- (class, parameter): the class writes into the object the caller passed — currently failing entries,
-one per root cause in `known_findings.json` -/
-def knownBad : List (String × String) :=
-  [ -- `self.optimization_options = optimization_options or {}` followed by `self.optimization_options[...] = ...`
-    ("kLeastAbsErrors", "optimization_options"),            -- [C18-options-alias-kLeastAbsErrors]
-    ("kMinPathError", "optimization_options"),              -- [C18-options-alias-kMinPathError]
-    ("kFlowDecompCycles", "optimization_options"),          -- [C18-options-alias-cycles]
-    ("kLeastAbsErrorsCycles", "optimization_options"),
-    ("kMinPathErrorCycles", "optimization_options"),
-    ("MinFlowDecompCycles", "optimization_options"),        -- forwards the caller's dict to kFlowDecompCycles
-    -- `self.edge_upper_bounds = max_edge_repetition_dict` then `self.edge_upper_bounds[edge] = 1`
-    ("AbstractWalkModelDiGraph", "max_edge_repetition_dict") ]   -- [C18-max-edge-repetition-dict]
+/-- (class, parameter): the class writes into the object the caller passed — the currently failing
+entries, one per root cause in `known_findings.json`. Empty on the current tree (repaired in /repo:
+c89801b `dict(optimization_options or {})`, 76a8f62 `dict(max_edge_repetition_dict)`): every write through
+an alias of a caller object that appears in the regenerated table breaks `no_write_through_alias`. -/
+def knownBad : List (String × String) := []
 
-/-- (class, function, parameter): a shared default object (`= {}`) is written -/
-def knownBadDefaults : List (String × String × String) :=
-  [ ("AbstractPathModelDAG", "__init__", "solve_statistics"),      -- [C18-solve-statistics-default]
-    ("AbstractWalkModelDiGraph", "__init__", "solve_statistics") ]
+/-- (class, function, parameter): a shared default object (`= {}`) is written. Empty on the current tree
+(/repo 9ad156a: `solve_statistics: dict = None`). -/
+def knownBadDefaults : List (String × String × String) := []
 
-/-- classes whose `get_solution` computing path does not end in `return` -/
-def knownFallsOff : List String :=
-  [ "kFlowDecomp" ]    -- [C18-kFlowDecomp-get-solution-none]
+/-- classes whose `get_solution` computing path does not end in `return`. Empty on the current tree
+(/repo b8cab9d). -/
+def knownFallsOff : List String := []
 
 /-- **no_write_through_alias** -/
 theorem no_write_through_alias :
